@@ -109,7 +109,8 @@ def spdx_identifier(text: str) -> Expression:
     """Factory for creating SPDX expressions."""
     try:
         return _LICENSING.parse(text)
-    except (ExpressionError, ParseError) as error:
+    # IndexError: license_expression crashes on e.g. '()'.
+    except (ExpressionError, ParseError, IndexError) as error:
         raise click.UsageError(
             _("'{}' is not a valid SPDX expression.").format(text)
         ) from error
